@@ -4,8 +4,36 @@ open Lean
 
 namespace Ytk.C01
 
+/-- values with arbitrary scalar map keys: {"im": [[keyScalar, value], …]} | [ … ] | scalar -/
+partial def ivalOfJson : Json → Except String IVal
+  | .arr xs => do
+    let ys ← xs.toList.mapM ivalOfJson
+    pure (.arr ys)
+  | j@(.obj _) => do
+    match j.getObjVal? "im" with
+    | .ok (.arr es) =>
+      let ps ← es.toList.mapM fun e => do
+        match e with
+        | .arr #[k, v] =>
+          let t ← (k.getObjVal? "t") >>= Json.getStr?
+          let s ← (k.getObjVal? "v") >>= Json.getStr?
+          let x ← ivalOfJson v
+          pure ((⟨t, s⟩ : Scalar), x)
+        | _ => throw "ival: entry must be [key, value]"
+      pure (.obj ps)
+    | _ =>
+      let t ← (j.getObjVal? "t") >>= Json.getStr?
+      let v ← (j.getObjVal? "v") >>= Json.getStr?
+      pure (.sc ⟨t, v⟩)
+  | _ => throw "ival: unexpected JSON"
+
 def handle : Wire.Handler := fun op a => do
   match op with
+  | "decodei" =>
+    let v ← (a.getObjVal? "v") >>= ivalOfJson
+    let d := decodeI v
+    pure (Json.mkObj [("dom", Wire.nodeToJson d), ("scalars", .num (Node.scalarCount d)),
+      ("keysOk", .bool (IVal.keysOk v)), ("inScalars", .num (IVal.scalarCount v))])
   | "frommap" =>
     -- input: a root map; output: the DOM built by FromMap and its AsMap
     let v ← Wire.getVal a "m"
